@@ -33,6 +33,7 @@ func ErrName(err error) string {
 
 // FileRunner executes file-layer script lines ("F ...") on package datafile.
 type FileRunner struct {
+	kept    []keptVal // values returned by random reads, watched for later modification
 	Dir     string
 	fid     uint32
 	io      fio.FileIOType
@@ -284,7 +285,21 @@ func (r *FileRunner) Exec(f []string) (res string) {
 		if err != nil {
 			return "err " + ErrName(err)
 		}
-		return "ok " + Obs(v)
+		out := "ok " + Obs(v)
+		// the bytes handed out are the record's bytes for good: a later read or write must not change them
+		for _, kp := range r.kept {
+			if !bytes.Equal(kp.live, kp.want) {
+				r.fail("the value returned by the random read at %s changed after later operations", kp.where)
+				copy(kp.want, kp.live)
+			}
+		}
+		if len(v) > 0 && !r.damaged {
+			r.kept = append(r.kept, keptVal{v, append([]byte(nil), v...), fmt.Sprintf("(%d,%d)", p.BlockID, p.Offset)})
+			if len(r.kept) > 32 {
+				r.kept = r.kept[len(r.kept)-32:]
+			}
+		}
+		return out
 	case "save":
 		b, err := os.ReadFile(r.path())
 		if err != nil {
@@ -339,6 +354,11 @@ func (r *FileRunner) Exec(f []string) (res string) {
 		return fmt.Sprintf("%d", r.df.Size())
 	}
 	return "err unknown-op"
+}
+
+type keptVal struct {
+	live, want []byte
+	where      string
 }
 
 // RunFileScript executes every "F" line of a script and writes the trace (line => observation).
